@@ -536,8 +536,13 @@ class ExprMixin:
                 raise Unsupported("yield outside a generator contract")
             cur = s.heap[c.oid].val
             x = ops.deref(s, v)
-            base = cur.to(x.kind) if isinstance(cur, VEmptySet) else cur
-            s.heap[c.oid].val = base.add(ops.coerce(s, x, base.elem))
+            if getattr(x, "kind", None) is not None and not isinstance(x, VObj):
+                base = cur.to(x.kind) if isinstance(cur, VEmptySet) else cur
+                s.heap[c.oid].val = base.add(ops.coerce(s, x, base.elem))
+            elif "calls" not in s.ghost:
+                raise Unsupported("yield of an object outside a call-order contract")
+            if "calls" in s.ghost:                      # units that specify a call order see the yields in it
+                s.ghost["calls"] = s.ghost["calls"] + (("yield", (x,)),)
             out.append((s, VNone()))
         return out
 
